@@ -18,21 +18,24 @@ open MosVerif.Retry
 /-! ### the loops as written are the common loop -/
 
 /-- `eff k o` = the attempts as they really happen: the oracle itself, except that the reuse loop's
-    last allowed attempt (retry 6) dials without consulting the pool -/
-theorem exchange_eq_loop (k : Kind) (hk : k ≠ .doh) (o : Oracle) :
-    exchange k o = loop k.lim (eff k o) 0 := by
+    last allowed attempt (retry 6) dials without consulting the pool, that the quic loop dials after
+    a connection-level failure, and that for DoH "pooled failure" stands for a failure that is retried
+    (a connection error on a reused connection or a QUIC connection error) and "fresh failure" for
+    one that is reported (`dohView`) -/
+theorem exchange_eq_loop (k : Kind) (o : Oracle) : exchange k o = loop k.lim (eff k o) 0 := by
   cases k
   · exact pipelineLoop_eq o 0
   · exact reuseLoop_eq o 0
   · exact quicLoop_eq o 0
-  · exact absurd rfl hk
+  · exact dohLoop_eq o 0
 
-theorem eff_doh (o : Oracle) : eff .doh o = o := rfl
+theorem eff_doh (o : Oracle) (i : Nat) : eff .doh o i = dohView (o i) := rfl
 
 /-- pipeline / reuse: within the retry budget minus one the pool IS consulted: the attempt is the
     oracle's -/
-theorem eff_early (k : Kind) (hq : k ≠ .quic) (o : Oracle) (i : Nat) (h : i ≤ 5) : eff k o i = o i := by
-  cases k <;> simp [eff, reuseEff, h] at hq ⊢
+theorem eff_early (k : Kind) (hq : k ≠ .quic) (hd : k ≠ .doh) (o : Oracle) (i : Nat) (h : i ≤ 5) :
+    eff k o i = o i := by
+  cases k <;> simp [eff, reuseEff, h] at hq hd ⊢
 
 /-- quic: an attempt is the oracle's unless the previous one ended with a connection-level error
     (`forgetConn`), in which case it is a dial -/
@@ -53,20 +56,18 @@ theorem eff_quic_plain (o : Oracle) (i : Nat) (h : ∀ j, j < i → (o j).connEr
 
 /-- the attempt is the oracle's when the pool is consulted (index ≤ 5) and, for quic, no earlier
     attempt was a connection-level failure -/
-theorem eff_plain (k : Kind) (o : Oracle) (i : Nat) (h : i ≤ 5)
+theorem eff_plain (k : Kind) (hd : k ≠ .doh) (o : Oracle) (i : Nat) (h : i ≤ 5)
     (hq : k = .quic → ∀ j, j < i → (o j).connErr = false) : eff k o i = o i := by
   by_cases hk : k = .quic
   · subst hk; exact eff_quic_plain o i (hq rfl)
-  · exact eff_early k hk o i h
+  · exact eff_early k hk hd o i h
 
 /-! ### ★ bounded, total -/
 
 /-- ★ at most `lim + 1` attempts, whatever happens in them. The loops are total functions
     (well-founded on `lim − retry`, no fuel). -/
 theorem attempts_bounded (k : Kind) (o : Oracle) : (exchange k o).n ≤ k.lim + 1 := by
-  by_cases hk : k = .doh
-  · subst hk; simp only [exchange, dohOnce]; split <;> (try split) <;> simp [Kind.lim]
-  · rw [exchange_eq_loop k hk]; exact loop_n_le _ _ _ (Nat.zero_le _)
+  rw [exchange_eq_loop k]; exact loop_n_le _ _ _ (Nat.zero_le _)
 
 /-- ★ pipelined transports (UDP, TCP/DoT with pipelining): at most 6 attempts -/
 theorem attempts_bounded_pipeline (o : Oracle) : (pipelineLoop o 0 0).n ≤ 6 := attempts_bounded .pipeline o
@@ -74,75 +75,59 @@ theorem attempts_bounded_pipeline (o : Oracle) : (pipelineLoop o 0 0).n ≤ 6 :=
 theorem attempts_bounded_reuse (o : Oracle) : (reuseLoop o 0 0).n ≤ 7 := attempts_bounded .reuse o
 /-- ★ DoQ: at most 6 attempts -/
 theorem attempts_bounded_quic (o : Oracle) : (quicLoop o 0 0 false).n ≤ 6 := attempts_bounded .quic o
-/-- DoH: exactly one round trip per exchange (no loop in this code) -/
-theorem attempts_doh (o : Oracle) : (dohOnce o).n = 1 := by
-  simp only [dohOnce]; split <;> (try split) <;> rfl
+/-- ★ DoH (h1, h2, h3): at most 4 round trips per exchange (`retry < 3`) -/
+theorem attempts_bounded_doh (o : Oracle) : (dohLoop o 0 0).n ≤ 4 := attempts_bounded .doh o
 
 /-- at least one attempt is made -/
 theorem attempts_pos (k : Kind) (o : Oracle) : 0 < (exchange k o).n := by
-  by_cases hk : k = .doh
-  · subst hk; simp [exchange, attempts_doh]
-  · rw [exchange_eq_loop k hk]; exact loop_n_gt _ _ _
+  rw [exchange_eq_loop k]; exact loop_n_gt _ _ _
 
 /-- the bounds are attained: a pool that keeps handing out stale connections -/
-example : (exchange .pipeline (fun _ => ⟨.pooled, none, false, none, false, false⟩)).n = 6 := by simp [exchange, pipelineLoop]
-example : (exchange .reuse (fun _ => ⟨.pooled, none, false, none, false, false⟩)).n = 7 := by
+example : (exchange .pipeline (fun _ => ⟨.pooled, none, false, none, false, false, false⟩)).n = 6 := by simp [exchange, pipelineLoop]
+example : (exchange .reuse (fun _ => ⟨.pooled, none, false, none, false, false, false⟩)).n = 7 := by
   simp [exchange, reuseLoop, forcedDial]
-example : (exchange .quic (fun _ => ⟨.pooled, none, false, none, false, false⟩)).n = 6 := by simp [exchange, quicLoop]
+example : (exchange .quic (fun _ => ⟨.pooled, none, false, none, false, false, false⟩)).n = 6 := by simp [exchange, quicLoop]
+example : (exchange .doh (fun _ => ⟨.pooled, none, false, none, false, false, false⟩)).n = 4 := by
+  simp [exchange, dohLoop, Get.isErr]
 
 /-! ### ★ what is retried -/
 
 /-- every attempt but the last failed on a POOLED connection while the context was live and
-    the retry budget was not exhausted: nothing else is ever retried -/
+    the retry budget was not exhausted: nothing else is ever retried (DoH: read through `dohView`) -/
 theorem only_stale_is_retried (k : Kind) (o : Oracle) (i : Nat) (hi : i + 1 < (exchange k o).n) :
     (eff k o i).get = .pooled ∧ (eff k o i).res = none ∧ (eff k o i).ctxDone = false ∧ i < k.lim := by
-  by_cases hk : k = .doh
-  · subst hk; simp [exchange, attempts_doh] at hi
-  · rw [exchange_eq_loop k hk] at hi
-    have h := loop_nonfinal _ _ _ i (Nat.zero_le _) hi
-    have h1 := (isStale_iff _).1 h.1
-    exact ⟨h1.1, h1.2.1, h1.2.2, h.2⟩
+  rw [exchange_eq_loop k] at hi
+  have h := loop_nonfinal _ _ _ i (Nat.zero_le _) hi
+  have h1 := (isStale_iff _).1 h.1
+  exact ⟨h1.1, h1.2.1, h1.2.2, h.2⟩
 
 /-- ★ a failure on a freshly dialled connection is returned — that attempt is the last one and
     the exchange reports an error -/
 theorem fresh_failure_returned (k : Kind) (o : Oracle) (i : Nat) (hi : i < (exchange k o).n)
     (hf : (eff k o i).get = .fresh) (hr : (eff k o i).res = none) :
     (exchange k o).res = none ∧ (exchange k o).n = i + 1 := by
-  by_cases hk : k = .doh
-  · subst hk
-    have : i = 0 := by simp [exchange, attempts_doh] at hi; exact hi
-    subst this
-    simp only [eff] at hf hr
-    simp only [exchange, dohOnce]
-    split <;> (try split) <;> simp_all
-  · have hlast : (exchange k o).n = i + 1 := by
-      by_cases h : i + 1 < (exchange k o).n
-      · have := (only_stale_is_retried k o i h).1
-        rw [hf] at this; cases this
-      · omega
-    refine ⟨?_, hlast⟩
-    rw [exchange_eq_loop k hk] at hlast ⊢
-    rw [loop_final, hlast]
-    simp [hr]
+  have hlast : (exchange k o).n = i + 1 := by
+    by_cases h : i + 1 < (exchange k o).n
+    · have := (only_stale_is_retried k o i h).1
+      rw [hf] at this; cases this
+    · omega
+  refine ⟨?_, hlast⟩
+  rw [exchange_eq_loop k] at hlast ⊢
+  rw [loop_final, hlast]
+  simp [hr]
 
 /-- likewise a failed dial (or a closed pool) ends the exchange with an error -/
 theorem get_failure_returned (k : Kind) (o : Oracle) (i : Nat) (hi : i < (exchange k o).n)
     (hf : (eff k o i).get.isErr = true) : (exchange k o).res = none ∧ (exchange k o).n = i + 1 := by
-  by_cases hk : k = .doh
-  · subst hk
-    have : i = 0 := by simp [exchange, attempts_doh] at hi; exact hi
-    subst this
-    simp only [eff] at hf
-    simp [exchange, dohOnce, hf]
-  · have hlast : (exchange k o).n = i + 1 := by
-      by_cases h : i + 1 < (exchange k o).n
-      · have := (only_stale_is_retried k o i h).1
-        rw [this] at hf; simp [Get.isErr] at hf
-      · omega
-    refine ⟨?_, hlast⟩
-    rw [exchange_eq_loop k hk] at hlast ⊢
-    rw [loop_final, hlast]
-    simp [hf]
+  have hlast : (exchange k o).n = i + 1 := by
+    by_cases h : i + 1 < (exchange k o).n
+    · have := (only_stale_is_retried k o i h).1
+      rw [this] at hf; simp [Get.isErr] at hf
+    · omega
+  refine ⟨?_, hlast⟩
+  rw [exchange_eq_loop k] at hlast ⊢
+  rw [loop_final, hlast]
+  simp [hf]
 
 /-- ★ once the context is done no further attempt starts -/
 theorem ctx_done_stops (k : Kind) (o : Oracle) (i : Nat) (hi : i < (exchange k o).n)
@@ -152,16 +137,61 @@ theorem ctx_done_stops (k : Kind) (o : Oracle) (i : Nat) (hi : i < (exchange k o
     rw [hd] at this; cases this
   · omega
 
+/-! ### DoH in its own terms -/
+
+theorem dohView_ctxDone (a : Attempt) : (dohView a).ctxDone = a.ctxDone := by
+  unfold dohView; split <;> (try split) <;> (try split) <;> rfl
+
+/-- DoH: a failure is retried iff it is a connection error (not a bad response) on a REUSED
+    connection or a QUIC connection error, the caller's context alive -/
+theorem dohView_pooled_fail (a : Attempt) :
+    ((dohView a).get = .pooled ∧ (dohView a).res = none) ↔
+      (a.ctxDone = false ∧ (a.get.isErr = true ∨ a.res = none) ∧ a.respErr = false ∧
+        (a.get = .pooled ∨ a.connErr = true)) := by
+  cases a with
+  | mk g x c f fd ce re =>
+    cases g <;> cases x <;> cases c <;> cases ce <;> cases re <;> simp [dohView, Get.isErr]
+
+/-- ★ DoH: once the caller's context is done the exchange returns (an error), no further round trip -/
+theorem doh_ctx_done_stops (o : Oracle) (i : Nat) (hi : i < (exchange .doh o).n)
+    (hd : (o i).ctxDone = true) : (exchange .doh o).n = i + 1 ∧ (exchange .doh o).res = none := by
+  have h1 := ctx_done_stops .doh o i hi (by rw [eff_doh, dohView_ctxDone]; exact hd)
+  refine ⟨h1, ?_⟩
+  rw [exchange_eq_loop .doh] at h1 ⊢
+  rw [loop_final, h1]
+  simp [eff, dohView, hd]
+
+/-- ★ DoH: a failure on a connection that was dialled for this request (and is not a QUIC connection
+    error), or a bad response on any connection, is reported, not retried -/
+theorem doh_fresh_failure_returned (o : Oracle) (i : Nat) (hi : i < (exchange .doh o).n)
+    (hfail : (o i).get.isErr = true ∨ (o i).res = none)
+    (hnot : (o i).respErr = true ∨ ((o i).get ≠ .pooled ∧ (o i).connErr = false)) :
+    (exchange .doh o).res = none ∧ (exchange .doh o).n = i + 1 := by
+  by_cases hc : (o i).ctxDone = true
+  · have := doh_ctx_done_stops o i hi hc
+    exact ⟨this.2, this.1⟩
+  · apply fresh_failure_returned .doh o i hi
+    · rw [eff_doh]
+      generalize o i = a at *
+      cases a with
+      | mk g x c f fd ce re =>
+        cases g <;> cases x <;> cases c <;> cases ce <;> cases re <;> simp_all [dohView, Get.isErr]
+    · rw [eff_doh]
+      generalize o i = a at *
+      cases a with
+      | mk g x c f fd ce re =>
+        cases g <;> cases x <;> cases c <;> cases ce <;> cases re <;> simp_all [dohView, Get.isErr]
+
 /-- ★ the first `m ≤ lim` attempts fail on pooled connections (context live) and the next
     attempt — on a fresh or on a pooled connection — gets a reply ⇒ the exchange returns
     that reply, after exactly `m + 1` attempts. (`eff k o i = o i` for `i ≤ 5`, see `eff_early`;
     the reuse loop's attempt 6 is a dial.) -/
-theorem stale_then_healthy_succeeds (k : Kind) (hk : k ≠ .doh) (o : Oracle) (m x : Nat)
+theorem stale_then_healthy_succeeds (k : Kind) (o : Oracle) (m x : Nat)
     (hm : m ≤ k.lim)
     (hs : ∀ i, i < m → (eff k o i).get = .pooled ∧ (eff k o i).res = none ∧ (eff k o i).ctxDone = false)
     (hg : (eff k o m).get = .pooled ∨ (eff k o m).get = .fresh) (hx : (eff k o m).res = some x) :
     exchange k o = ⟨some x, m + 1⟩ := by
-  rw [exchange_eq_loop k hk]
+  rw [exchange_eq_loop k]
   have h1 := loop_skip_stale k.lim (eff k o) 0 m (by omega)
     (fun i _ hi => (isStale_iff _).2 (hs i (by omega)))
   rw [h1, Nat.zero_add]
@@ -177,8 +207,8 @@ theorem stale_then_healthy_succeeds_pool (k : Kind) (hk : k ≠ .doh) (o : Oracl
     (hg : (o m).get = .pooled ∨ (o m).get = .fresh) (hx : (o m).res = some x) :
     exchange k o = ⟨some x, m + 1⟩ := by
   have he : ∀ i, i ≤ m → eff k o i = o i := fun i hi =>
-    eff_plain k o i (by omega) (fun hkq j hj => hq hkq j (by omega))
-  apply stale_then_healthy_succeeds k hk o m x
+    eff_plain k hk o i (by omega) (fun hkq j hj => hq hkq j (by omega))
+  apply stale_then_healthy_succeeds k o m x
   · cases k <;> simp [Kind.lim] at hk ⊢ <;> omega
   · intro i hi; rw [he i (by omega)]; exact hs i hi
   · rw [he m (Nat.le_refl _)]; exact hg
@@ -195,7 +225,7 @@ theorem quic_dying_conn_redials (o : Oracle) (j x : Nat) (hj : j ≤ 4)
     exchange .quic o = ⟨some x, j + 2⟩ := by
   have he : ∀ i, i ≤ j → eff .quic o i = o i := fun i hi =>
     eff_quic_plain o i (fun t ht => (hs t (by omega)).2)
-  rw [exchange_eq_loop .quic (by decide)]
+  rw [exchange_eq_loop .quic]
   have h1 := loop_skip_stale Kind.quic.lim (eff .quic o) 0 (j + 1) (by simp [Kind.lim]; omega)
     (fun i _ hi => by
       rw [he i (by omega)]
@@ -211,9 +241,9 @@ theorem quic_dying_conn_redials (o : Oracle) (j x : Nat) (hj : j ≤ 4)
 
 /-- without `forgetConn` the same oracle — the dying connection is handed out again and again —
     exhausts the budget (this is the pipeline loop's behaviour on it) -/
-example : exchange .pipeline (fun _ => ⟨.pooled, none, false, some (some 7), false, true⟩) = ⟨none, 6⟩ := by
+example : exchange .pipeline (fun _ => ⟨.pooled, none, false, some (some 7), false, true, false⟩) = ⟨none, 6⟩ := by
   simp [exchange, pipelineLoop]
-example : exchange .quic (fun _ => ⟨.pooled, none, false, some (some 7), false, true⟩) = ⟨some 7, 2⟩ := by
+example : exchange .quic (fun _ => ⟨.pooled, none, false, some (some 7), false, true, false⟩) = ⟨some 7, 2⟩ := by
   simp [exchange, quicLoop, forcedDial]
 
 /-- ★ connection-reuse transports: HOWEVER MANY stale connections the pool holds — every attempt
@@ -223,7 +253,7 @@ theorem stale_pool_any_size_succeeds (o : Oracle)
     (hp : ∀ i, isHealthy (o i) = true ∨ isStale (o i) = true)
     (hd : ∀ i, ∃ x, (o i).forced = some (some x)) :
     (exchange .reuse o).res.isSome = true := by
-  rw [exchange_eq_loop .reuse (by decide)]
+  rw [exchange_eq_loop .reuse]
   have hn1 := loop_n_gt Kind.reuse.lim (eff .reuse o) 0
   have hn2 := loop_n_le Kind.reuse.lim (eff .reuse o) 0 (Nat.zero_le _)
   obtain ⟨j, hj⟩ : ∃ j, (loop Kind.reuse.lim (eff .reuse o) 0).n = j + 1 :=
@@ -232,7 +262,7 @@ theorem stale_pool_any_size_succeeds (o : Oracle)
   simp only [Nat.add_sub_cancel]
   by_cases h6 : j < 6
   · have hns := loop_final_not_stale Kind.reuse.lim (eff .reuse o) 0 j (Nat.zero_le _) h6 hj
-    have he : eff .reuse o j = o j := eff_early .reuse (by decide) o j (by omega)
+    have he : eff .reuse o j = o j := eff_early .reuse (by decide) (by decide) o j (by omega)
     rw [he] at hns ⊢
     rcases hp j with h | h
     · simp only [isHealthy, Bool.and_eq_true, Bool.not_eq_true'] at h
@@ -244,32 +274,28 @@ theorem stale_pool_any_size_succeeds (o : Oracle)
     simp [eff, reuseEff, forcedDial, hx, Get.isErr]
 
 /-- … and the pipelined / QUIC loops do not have that escape: 6 stale connections exhaust them -/
-example : exchange .pipeline (fun _ => ⟨.pooled, none, false, some (some 7), false, false⟩) = ⟨none, 6⟩ := by
+example : exchange .pipeline (fun _ => ⟨.pooled, none, false, some (some 7), false, false, false⟩) = ⟨none, 6⟩ := by
   simp [exchange, pipelineLoop]
 
 /-- non-vacuity: 5 stale pooled connections, then a fresh one that answers (pipeline);
     6 for the reuse transport; and one more stale connection exhausts the budget -/
-example : exchange .pipeline (oracleOf ((List.replicate 5 ⟨.pooled, none, false, none, false, false⟩) ++ [⟨.fresh, some 7, false, none, false, false⟩]))
+example : exchange .pipeline (oracleOf ((List.replicate 5 ⟨.pooled, none, false, none, false, false, false⟩) ++ [⟨.fresh, some 7, false, none, false, false, false⟩]))
     = ⟨some 7, 6⟩ := by simp [exchange, pipelineLoop, oracleOf, List.replicate]
-example : exchange .reuse (oracleOf ((List.replicate 5 ⟨.pooled, none, false, none, false, false⟩) ++ [⟨.pooled, some 7, false, none, false, false⟩]))
+example : exchange .reuse (oracleOf ((List.replicate 5 ⟨.pooled, none, false, none, false, false, false⟩) ++ [⟨.pooled, some 7, false, none, false, false, false⟩]))
     = ⟨some 7, 6⟩ := by simp [exchange, reuseLoop, oracleOf, List.replicate]
 /-- the reuse loop's 7th attempt dials whatever the pool holds -/
-example : exchange .reuse (fun _ => ⟨.pooled, none, false, some (some 7), false, false⟩) = ⟨some 7, 7⟩ := by
+example : exchange .reuse (fun _ => ⟨.pooled, none, false, some (some 7), false, false, false⟩) = ⟨some 7, 7⟩ := by
   simp [exchange, reuseLoop, forcedDial]
-example : exchange .pipeline (oracleOf ((List.replicate 6 ⟨.pooled, none, false, none, false, false⟩) ++ [⟨.fresh, some 7, false, none, false, false⟩]))
+example : exchange .pipeline (oracleOf ((List.replicate 6 ⟨.pooled, none, false, none, false, false, false⟩) ++ [⟨.fresh, some 7, false, none, false, false, false⟩]))
     = ⟨none, 6⟩ := by simp [exchange, pipelineLoop, oracleOf, List.replicate]
-example : exchange .pipeline (oracleOf [⟨.fresh, none, false, none, false, false⟩, ⟨.fresh, some 7, false, none, false, false⟩]) = ⟨none, 1⟩ := by
+example : exchange .pipeline (oracleOf [⟨.fresh, none, false, none, false, false, false⟩, ⟨.fresh, some 7, false, none, false, false, false⟩]) = ⟨none, 1⟩ := by
   simp [exchange, pipelineLoop, oracleOf]
-example : exchange .reuse (oracleOf [⟨.pooled, none, true, none, false, false⟩, ⟨.fresh, some 7, false, none, false, false⟩]) = ⟨none, 1⟩ := by
+example : exchange .reuse (oracleOf [⟨.pooled, none, true, none, false, false, false⟩, ⟨.fresh, some 7, false, none, false, false, false⟩]) = ⟨none, 1⟩ := by
   simp [exchange, reuseLoop, oracleOf]
 
 /-- at most one dial per exchange: only the last attempt can be on a fresh connection -/
 theorem at_most_one_dial (k : Kind) (o : Oracle) : dialsUpTo (eff k o) (exchange k o).n ≤ 1 := by
-  by_cases hk : k = .doh
-  · subst hk
-    rw [show (exchange .doh o).n = 1 from attempts_doh o]
-    simp only [dialsUpTo]; split <;> omega
-  · rw [exchange_eq_loop k hk]; exact loop_dials_le_one _ _
+  rw [exchange_eq_loop k]; exact loop_dials_le_one _ _
 
 /-- at most `lim + 1` exchanges are written to connections -/
 theorem exchanges_bounded (k : Kind) (o : Oracle) : exchUpTo (eff k o) (exchange k o).n ≤ k.lim + 1 :=
@@ -413,6 +439,20 @@ theorem pins_quic_forget :
     Facts.c14_quicGetConnAlive = "!ctxIsDone(t.c.Context())" := by
   decide
 
+set_option maxRecDepth 16000 in
+/-- tie (941027f, 43a2a92): the DoH loop and what `exchangeOnce` calls a connection error (RoundTrip
+    failed / the body read failed; not: bad status, undecodable body); a DoQ stream is opened with
+    `OpenStreamSync(ctx)` — a wait for stream credit bounded by the exchange's context — and nothing
+    else opens streams -/
+theorem pins_doh_loop :
+    Facts.c14_dohExchangeBody = "{ retry := 0 for { var reused atomic.Bool trace := &httptrace.ClientTrace{GotConn: func(info httptrace.GotConnInfo) { reused.Store(info.Reused) }} r, connErr, err := u.exchangeOnce(httptrace.WithClientTrace(ctx, trace), rawQuery) if connErr && (reused.Load() || isQuicConnErr(err) || isHttp3Err(err)) && retry < 3 && ctx.Err() == nil { retry++ continue } return r, err } }" ∧
+    Facts.c14_dohIsH3ErrBody = "{ var h3Err *http3.Error return errors.As(err, &h3Err) }" ∧
+    Facts.c14_dohOnceBody = "{ req := u.reqTemplate.WithContext(ctx) req.URL = new(urlpkg.URL) *req.URL = *u.urlTemplate req.URL.RawQuery = rawQuery resp, err := u.rt.RoundTrip(req) if err != nil { return nil, true, fmt.Errorf(\"http request failed: %w\", err) } defer resp.Body.Close() if resp.StatusCode != http.StatusOK { body1k, _ := io.ReadAll(io.LimitReader(resp.Body, 1024)) if body1k != nil { return nil, false, fmt.Errorf(\"bad http status codes %d with body [%s]\", resp.StatusCode, body1k) } return nil, false, fmt.Errorf(\"bad http status codes %d\", resp.StatusCode) } bb := bufPool4k.Get() defer bufPool4k.Release(bb) _, err = bb.ReadFrom(io.LimitReader(resp.Body, 65535)) if err != nil { return nil, true, fmt.Errorf(\"failed to read http body: %w\", err) } m, err := dnsmsg.UnpackMsg(bb.Bytes()) return m, false, err }" ∧
+    Facts.c14_nsel0_dohOnce = 0 ∧
+    Facts.c14_quicOpenStream = "s, err := c.OpenStreamSync(ctx)" ∧ Facts.c14_quicOpenStreamCalls = 1 ∧
+    Facts.c14_quicExchangeConnBody = "{ s, err := c.OpenStreamSync(ctx) if err != nil { return nil, fmt.Errorf(\"failed to open stream, %w\", err) } return t.exchangeStream(ctx, payload, s) }" := by
+  decide
+
 /-! ### ★ every wait has a context arm: the complete table of `select`s on the exchange paths -/
 
 /-- every `select` statement of the functions on the exchange paths, with the pinned source
@@ -517,7 +557,7 @@ theorem eff_ctxDone (k : Kind) (o : Oracle) (i : Nat) (h1 : (o i).ctxDone = fals
   · cases i with
     | zero => simpa [eff, quicEff] using h1
     | succ n => simp only [eff, quicEff]; split <;> simp [forcedDial_ctxDone, h1, h2]
-  · simp [eff, h1]
+  · simp [eff, dohView_ctxDone, h1]
 
 theorem stalePool_getD (l : List Attempt) (h : stalePoolHealthyServer l = true) (i : Nat) :
     (isHealthy (l.getD i defaultAttempt) = true ∨ isStale (l.getD i defaultAttempt) = true) ∧
@@ -536,29 +576,64 @@ theorem stalePool_getD (l : List Attempt) (h : stalePoolHealthyServer l = true) 
   · refine ⟨Or.inl ?_, 1, ?_⟩ <;>
       simp [List.getD, List.getElem?_eq_none (Nat.le_of_not_lt hi), defaultAttempt, isHealthy, Get.isErr, healthyDial]
 
+/-- loop level: the effective attempts agree with a view `v` on `0 … m`; `m ≤ lim` stale attempts,
+    then a healthy one -/
+theorem loop_stale_then_healthy (lim : Nat) (e v : Oracle) (m x : Nat) (hm : m ≤ lim)
+    (hv : ∀ i, i ≤ m → e i = v i) (hs : ∀ i, i < m → isStale (v i) = true)
+    (hg : (v m).get.isErr = false) (hx : (v m).res = some x) : loop lim e 0 = ⟨some x, m + 1⟩ := by
+  have h1 := loop_skip_stale lim e 0 m (by omega) (fun i _ hi => by rw [hv i (by omega)]; exact hs i (by omega))
+  rw [h1, Nat.zero_add]
+  apply loop_healthy
+  · rw [hv m (Nat.le_refl _)]; exact hg
+  · rw [hv m (Nat.le_refl _)]; exact hx
+
+/-- loop level: `j ≤ lim` stale attempts, then a fresh connection that fails -/
+theorem loop_stale_then_fresh_failure (lim : Nat) (e v : Oracle) (j : Nat) (hj : j ≤ lim)
+    (hv : ∀ i, i ≤ j → e i = v i) (hs : ∀ i, i < j → isStale (v i) = true)
+    (hf : (v j).get = .fresh) (hr : (v j).res = none) : loop lim e 0 = ⟨none, j + 1⟩ := by
+  have h1 := loop_skip_stale lim e 0 j (by omega) (fun i _ hi => by rw [hv i (by omega)]; exact hs i (by omega))
+  rw [h1, Nat.zero_add, loop, hv j (Nat.le_refl _)]
+  simp [hf, hr]
+
 /-- `j ≤ 5` stale pooled attempts, then a fresh connection that fails: the exchange fails after
-    exactly `j + 1` attempts -/
-theorem stale_then_fresh_failure (k : Kind) (o : Oracle) (j : Nat) (hj : j ≤ k.poolLim)
+    exactly `j + 1` attempts (for DoH see `doh_fresh_failure_returned`) -/
+theorem stale_then_fresh_failure (k : Kind) (hk : k ≠ .doh) (o : Oracle) (j : Nat) (hj : j ≤ k.poolLim)
     (hs : ∀ i, i < j → isStale (o i) = true)
     (hq : k = .quic → ∀ i, i < j → (o i).connErr = false)
     (hf : (o j).get = .fresh) (hr : (o j).res = none) :
     exchange k o = ⟨none, j + 1⟩ := by
-  by_cases hk : k = .doh
-  · subst hk
-    have : j = 0 := by simpa [Kind.poolLim] using hj
-    subst this
-    simp only [exchange, dohOnce]
-    split <;> (try split) <;> simp_all
-  · have hj5 : j ≤ 5 := by cases k <;> simp [Kind.poolLim] at hj hk ⊢ <;> omega
-    have hlim : j ≤ k.lim := by cases k <;> simp [Kind.lim] at hk ⊢ <;> omega
-    rw [exchange_eq_loop k hk]
-    have he : ∀ i, i ≤ j → eff k o i = o i := fun i hi =>
-      eff_plain k o i (by omega) (fun hkq t ht => hq hkq t (by omega))
-    have h1 := loop_skip_stale k.lim (eff k o) 0 j (by omega)
-      (fun i _ hi => by rw [he i (by omega)]; exact hs i (by omega))
-    rw [h1, Nat.zero_add, loop]
-    rw [he j (Nat.le_refl _)]
-    simp [hf, hr]
+  have hj5 : j ≤ 5 := by cases k <;> simp [Kind.poolLim] at hj hk ⊢ <;> omega
+  have hlim : j ≤ k.lim := by cases k <;> simp [Kind.lim] at hk ⊢ <;> omega
+  rw [exchange_eq_loop k]
+  exact loop_stale_then_fresh_failure k.lim (eff k o) o j hlim
+    (fun i hi => eff_plain k hk o i (by omega) (fun hkq t ht => hq hkq t (by omega))) hs hf hr
+
+/-- ★ DoH is no longer exempt: `m ≤ 3` round trips fail with a connection error on a reused
+    connection (h1/h2: `GotConn.Reused`; h3: a QUIC connection error), the caller's context alive, and
+    the next round trip gets a reply ⇒ the exchange returns that reply -/
+theorem doh_stale_then_healthy_succeeds (o : Oracle) (m x : Nat) (hm : m ≤ 3)
+    (hs : ∀ i, i < m → (o i).ctxDone = false ∧ ((o i).get.isErr = true ∨ (o i).res = none) ∧
+      (o i).respErr = false ∧ ((o i).get = .pooled ∨ (o i).connErr = true))
+    (hc : (o m).ctxDone = false) (hg : (o m).get.isErr = false) (hx : (o m).res = some x) :
+    exchange .doh o = ⟨some x, m + 1⟩ := by
+  rw [exchange_eq_loop .doh]
+  apply loop_stale_then_healthy Kind.doh.lim (eff .doh o) (eff .doh o) m x (by simpa [Kind.lim] using hm)
+    (fun _ _ => rfl)
+  · intro i hi
+    rw [isStale_iff, eff_doh]
+    have := (dohView_pooled_fail (o i)).2 (hs i hi)
+    exact ⟨this.1, this.2, by rw [dohView_ctxDone]; exact (hs i hi).1⟩
+  · rw [eff_doh]; simp [dohView, hc, hg, hx]
+  · rw [eff_doh]; simp [dohView, hc, hg, hx]
+
+/-- non-vacuity: three reused connections died, the fourth round trip answers; a fourth dead one
+    exhausts the budget; a bad response is not retried -/
+example : exchange .doh (oracleOf ((List.replicate 3 ⟨.pooled, none, false, none, false, false, false⟩) ++ [⟨.fresh, some 7, false, none, false, false, false⟩]))
+    = ⟨some 7, 4⟩ := by simp [exchange, dohLoop, oracleOf, List.replicate, Get.isErr]
+example : exchange .doh (oracleOf ((List.replicate 4 ⟨.pooled, none, false, none, false, false, false⟩) ++ [⟨.fresh, some 7, false, none, false, false, false⟩]))
+    = ⟨none, 4⟩ := by simp [exchange, dohLoop, oracleOf, List.replicate, Get.isErr]
+example : exchange .doh (oracleOf [⟨.pooled, none, false, none, false, false, true⟩, ⟨.fresh, some 7, false, none, false, false, false⟩])
+    = ⟨none, 1⟩ := by simp [exchange, dohLoop, oracleOf, Get.isErr]
 
 /-- what holds of every element of `l.takeWhile p` holds of the first elements of `l` -/
 theorem takeWhile_all_getD (p q : Attempt → Bool) (l : List Attempt) (h : (l.takeWhile p).all q = true)
@@ -594,34 +669,68 @@ theorem plainPrefix_connErr (k : Kind) (l : List Attempt) (h : plainPrefix k l =
   simp only [Bool.not_eq_true'] at this
   exact this
 
+theorem dohView_default : dohView defaultAttempt = defaultAttempt := by
+  simp [dohView, defaultAttempt, Get.isErr]
+
+theorem getD_map_dohView (l : List Attempt) (i : Nat) :
+    (l.map dohView).getD i defaultAttempt = dohView (l.getD i defaultAttempt) := by
+  by_cases hi : i < l.length
+  · simp [List.getD, hi]
+  · simp [List.getD, List.getElem?_eq_none (Nat.le_of_not_lt hi), dohView_default]
+
+theorem specView_ne_doh (k : Kind) (hk : k ≠ .doh) (l : List Attempt) : specView k l = l := by
+  cases k <;> simp [specView] at hk ⊢
+
+/-- the attempts as they really happen are the viewed script's attempts: always for DoH; for the
+    other loops while the pool is consulted and (quic) no connection-level failure came before -/
+theorem eff_view (k : Kind) (l : List Attempt) (i : Nat) (h : i ≤ 5)
+    (hq : k = .quic → ∀ j, j < i → (oracleOf l j).connErr = false) :
+    eff k (oracleOf l) i = oracleOf (specView k l) i := by
+  by_cases hk : k = .doh
+  · subst hk
+    simp only [eff_doh, oracleOf, specView, beq_self_eq_true, if_true]
+    exact (getD_map_dohView l i).symm
+  · rw [specView_ne_doh k hk, eff_plain k hk (oracleOf l) i h hq]
+
+theorem poolLim_le (k : Kind) : k.poolLim ≤ 5 ∧ k.poolLim ≤ k.lim := by
+  cases k <;> simp [Kind.poolLim, Kind.lim]
+
 /-- ★ for every loop, every fault script and every choice of observables, the outcome the
     model predicts satisfies the executable specification written from the property text
     (`spec` is what the harness applies to the REAL transports' observed outcomes) -/
 theorem model_meets_spec (k : Kind) (l : List Attempt) (obs : String) :
     spec k l (predict k (oracleOf l) obs) = true := by
+  generalize hlv : specView k l = lv
+  have hquic : k = .quic → lv = l := fun hkq => by rw [← hlv]; exact specView_ne_doh k (by rw [hkq]; decide) l
+  have hview : ∀ i, i ≤ 5 → (k = .quic → ∀ j, j < i → (oracleOf lv j).connErr = false) →
+      eff k (oracleOf l) i = oracleOf lv i := by
+    intro i hi hq
+    rw [← hlv]
+    exact eff_view k l i hi (fun hkq j hj => by have := hq hkq j hj; rwa [hquic hkq] at this)
   have hA : (predict k (oracleOf l) obs).t ≠ "late" := by
     simp only [predict]; split <;> decide
-  have hB : k ≠ .doh → plainPrefix k l = true → staleThenHealthy k.poolLim l = true →
+  have hB : plainPrefix k lv = true → staleThenHealthy k.poolLim lv = true →
       (predict k (oracleOf l) obs).ok = true := by
-    intro hk hpp hs
+    intro hpp hs
     simp only [staleThenHealthy, Bool.and_eq_true, decide_eq_true_eq] at hs
     obtain ⟨hm, hh⟩ := hs
-    have hq : k = .quic → ∀ i, i < (l.takeWhile isStale).length → (oracleOf l i).connErr = false :=
-      fun hkq i hi => plainPrefix_connErr k l hpp hkq i hi
-    generalize hmm : (l.takeWhile isStale).length = m at hm hh hq
-    have hm5 : m ≤ 5 := by cases k <;> simp [Kind.poolLim] at hm hk ⊢ <;> omega
-    have hst : ∀ i, i < m → (oracleOf l i).get = .pooled ∧ (oracleOf l i).res = none ∧ (oracleOf l i).ctxDone = false :=
-      fun i hi => (isStale_iff _).1 (takeWhile_stale l i (by omega))
-    have hh' : isHealthy (oracleOf l m) = true := hh
-    obtain ⟨x, hx⟩ : ∃ x, (oracleOf l m).res = some x := by
-      cases hr : (oracleOf l m).res with
+    have hq : k = .quic → ∀ i, i < (lv.takeWhile isStale).length → (oracleOf lv i).connErr = false :=
+      fun hkq i hi => plainPrefix_connErr k lv hpp hkq i hi
+    generalize hmm : (lv.takeWhile isStale).length = m at hm hh hq
+    have hm5 := (poolLim_le k).1
+    have hst : ∀ i, i < m → isStale (oracleOf lv i) = true := fun i hi => takeWhile_stale lv i (by omega)
+    have hh' : isHealthy (oracleOf lv m) = true := hh
+    obtain ⟨x, hx⟩ : ∃ x, (oracleOf lv m).res = some x := by
+      cases hr : (oracleOf lv m).res with
       | none => simp [isHealthy, hr] at hh'
       | some x => exact ⟨x, rfl⟩
-    have hg : (oracleOf l m).get = .pooled ∨ (oracleOf l m).get = .fresh := by
-      cases hq' : (oracleOf l m).get <;> simp [isHealthy, Get.isErr, hq'] at hh' ⊢
-    have := stale_then_healthy_succeeds_pool k hk (oracleOf l) m x hm5 hst hq hg hx
-    simp [predict, this]
-  have hB0 : ∀ j, plainPrefix k l = true → freshFailureAt k.poolLim l = some j →
+    have hg : (oracleOf lv m).get.isErr = false := by
+      simp only [isHealthy, Bool.and_eq_true, Bool.not_eq_true'] at hh'; exact hh'.1
+    have := loop_stale_then_healthy k.lim (eff k (oracleOf l)) (oracleOf lv) m x
+      (Nat.le_trans hm (poolLim_le k).2)
+      (fun i hi => hview i (by omega) (fun hkq j hj => hq hkq j (by omega))) hst hg hx
+    simp [predict, exchange_eq_loop k, this]
+  have hB0 : ∀ j, plainPrefix k lv = true → freshFailureAt k.poolLim lv = some j →
       (predict k (oracleOf l) obs).ok = false ∧ ∀ a, (predict k (oracleOf l) obs).att = some a → a ≤ j + 1 := by
     intro j hpp hj
     simp only [freshFailureAt] at hj
@@ -630,27 +739,32 @@ theorem model_meets_spec (k : Kind) (l : List Attempt) (obs : String) :
       cases hj
       simp only [Bool.and_eq_true, decide_eq_true_eq, beq_iff_eq] at hc
       obtain ⟨⟨hle, hfresh⟩, hnone⟩ := hc
-      have hex := stale_then_fresh_failure k (oracleOf l) _ hle
-        (fun i hi => takeWhile_stale l i hi)
-        (fun hkq i hi => plainPrefix_connErr k l hpp hkq i hi)
-        hfresh (Option.isNone_iff_eq_none.1 hnone)
-      refine ⟨by simp [predict, hex], ?_⟩
+      have hm5 := (poolLim_le k).1
+      have hex := loop_stale_then_fresh_failure k.lim (eff k (oracleOf l)) (oracleOf lv) _
+        (Nat.le_trans hle (poolLim_le k).2)
+        (fun i hi => hview i (by omega)
+          (fun hkq t ht => plainPrefix_connErr k lv hpp hkq t (by omega)))
+        (fun i hi => takeWhile_stale lv i hi) hfresh (Option.isNone_iff_eq_none.1 hnone)
+      refine ⟨by simp [predict, exchange_eq_loop k, hex], ?_⟩
       intro a ha
       simp only [predict] at ha
       split at ha
       · cases ha
-        rw [hex]
+        rw [exchange_eq_loop k, hex]
         exact exchUpTo_le _ _
       · cases ha
     · cases hj
-  have hB2 : k = .reuse → stalePoolHealthyServer l = true → (predict k (oracleOf l) obs).ok = true := by
+  have hB2 : k = .reuse → stalePoolHealthyServer lv = true → (predict k (oracleOf l) obs).ok = true := by
     intro hk hs
     subst hk
+    have hl : lv = l := by rw [← hlv]; exact specView_ne_doh .reuse (by decide) l
+    rw [hl] at hs
     have := stale_pool_any_size_succeeds (oracleOf l)
       (fun i => (stalePool_getD l hs i).1) (fun i => (stalePool_getD l hs i).2)
     simpa [predict] using this
-  have hB3 : k = .quic → quicKillThenDial l = true → (predict k (oracleOf l) obs).ok = true := by
+  have hB3 : k = .quic → quicKillThenDial lv = true → (predict k (oracleOf l) obs).ok = true := by
     intro hk hs
+    rw [hquic hk] at hs
     subst hk
     simp only [quicKillThenDial, Bool.and_eq_true, decide_eq_true_eq] at hs
     obtain ⟨⟨⟨hj, hst⟩, hce⟩, hd⟩ := hs
@@ -681,20 +795,29 @@ theorem model_meets_spec (k : Kind) (l : List Attempt) (obs : String) :
     split at hd
     · cases hd; exact at_most_one_dial k _
     · cases hd
-  have hE : l.all (fun a => !a.ctxDone && !a.forcedDone) = true → (predict k (oracleOf l) obs).t = "prompt" := by
+  have hE : lv.all (fun a => !a.ctxDone && !a.forcedDone) = true → (predict k (oracleOf l) obs).t = "prompt" := by
     intro h
-    have h1 := all_live_getD l h ((exchange k (oracleOf l)).n - 1)
-    have : (eff k (oracleOf l) ((exchange k (oracleOf l)).n - 1)).ctxDone = false :=
-      eff_ctxDone k (oracleOf l) _ h1.1 h1.2
+    have h1 := all_live_getD lv h ((exchange k (oracleOf l)).n - 1)
+    have : (eff k (oracleOf l) ((exchange k (oracleOf l)).n - 1)).ctxDone = false := by
+      by_cases hk : k = .doh
+      · subst hk
+        have hl : lv = l.map dohView := by rw [← hlv]; simp [specView]
+        rw [eff_doh]
+        show (dohView (l.getD _ defaultAttempt)).ctxDone = false
+        rw [← getD_map_dohView, ← hl]
+        exact h1.1
+      · have hl : lv = l := by rw [← hlv]; exact specView_ne_doh k hk l
+        rw [hl] at h1
+        exact eff_ctxDone k (oracleOf l) _ h1.1 h1.2
     simp only [predict, this]
     simp
   have hF : (predict k (oracleOf l) obs).woke = true ∧ (predict k (oracleOf l) obs).leak = 0 := ⟨rfl, rfl⟩
-  simp only [spec, Bool.and_eq_true]
+  simp only [spec, hlv, specCore, Bool.and_eq_true]
   refine ⟨⟨⟨⟨⟨⟨⟨⟨⟨?_, ?_⟩, ?_⟩, ?_⟩, ?_⟩, ?_⟩, ?_⟩, ?_⟩, hF.1⟩, by simp [hF.2]⟩
   · simpa using hA
-  · by_cases hpp : plainPrefix k l = true
+  · by_cases hpp : plainPrefix k lv = true
     · simp only [hpp, if_true]
-      cases hq : freshFailureAt k.poolLim l with
+      cases hq : freshFailureAt k.poolLim lv with
       | none => rfl
       | some j =>
         have := hB0 j hpp hq
@@ -706,8 +829,7 @@ theorem model_meets_spec (k : Kind) (l : List Attempt) (obs : String) :
     · simp [hpp]
   · split
     · rename_i h
-      simp only [bne_iff_ne, ne_eq] at h
-      exact hB h.1.1 h.1.2 h.2
+      exact hB h.1 h.2
     · rfl
   · split
     · rename_i h
@@ -732,22 +854,30 @@ theorem model_meets_spec (k : Kind) (l : List Attempt) (obs : String) :
 /-- the specification is not vacuous: it rejects a late return, a stale connection that was
     not survived, a second dial, an unbounded number of attempts, waiting out the deadline
     after a connection died, sleeping waiters and a leaked connection -/
-example : spec .pipeline [⟨.fresh, none, true, none, false, false⟩] ⟨false, some 1, some 1, "late", true, 0⟩ = false := by decide
-example : spec .reuse (List.replicate 9 ⟨.pooled, none, false, healthyDial, false, false⟩) ⟨false, some 7, some 0, "prompt", true, 0⟩ = false := by decide
-example : spec .reuse (List.replicate 9 ⟨.pooled, none, false, healthyDial, false, false⟩) ⟨true, some 7, some 1, "prompt", true, 0⟩ = true := by decide
-example : spec .reuse [⟨.pooled, none, false, none, false, false⟩, ⟨.fresh, some 1, false, healthyDial, false, false⟩] ⟨false, some 1, some 0, "prompt", true, 0⟩ = false := by decide
-example : spec .reuse [⟨.pooled, none, false, none, false, false⟩, ⟨.fresh, some 1, false, healthyDial, false, false⟩] ⟨true, some 2, some 1, "prompt", true, 0⟩ = true := by decide
-example : spec .pipeline [⟨.fresh, none, false, none, false, false⟩] ⟨false, some 2, some 2, "prompt", true, 0⟩ = false := by decide
-example : spec .quic [⟨.fresh, none, false, none, false, false⟩] ⟨true, some 2, some 1, "prompt", true, 0⟩ = false := by decide
-example : spec .quic [⟨.pooled, none, false, healthyDial, false, true⟩, ⟨.fresh, some 1, false, healthyDial, false, false⟩]
+example : spec .pipeline [⟨.fresh, none, true, none, false, false, false⟩] ⟨false, some 1, some 1, "late", true, 0⟩ = false := by decide
+example : spec .reuse (List.replicate 9 ⟨.pooled, none, false, healthyDial, false, false, false⟩) ⟨false, some 7, some 0, "prompt", true, 0⟩ = false := by decide
+example : spec .reuse (List.replicate 9 ⟨.pooled, none, false, healthyDial, false, false, false⟩) ⟨true, some 7, some 1, "prompt", true, 0⟩ = true := by decide
+example : spec .reuse [⟨.pooled, none, false, none, false, false, false⟩, ⟨.fresh, some 1, false, healthyDial, false, false, false⟩] ⟨false, some 1, some 0, "prompt", true, 0⟩ = false := by decide
+example : spec .reuse [⟨.pooled, none, false, none, false, false, false⟩, ⟨.fresh, some 1, false, healthyDial, false, false, false⟩] ⟨true, some 2, some 1, "prompt", true, 0⟩ = true := by decide
+example : spec .pipeline [⟨.fresh, none, false, none, false, false, false⟩] ⟨false, some 2, some 2, "prompt", true, 0⟩ = false := by decide
+example : spec .quic [⟨.fresh, none, false, none, false, false, false⟩] ⟨true, some 2, some 1, "prompt", true, 0⟩ = false := by decide
+example : spec .quic [⟨.pooled, none, false, healthyDial, false, true, false⟩, ⟨.fresh, some 1, false, healthyDial, false, false, false⟩]
     ⟨false, none, some 0, "prompt", true, 0⟩ = false := by decide
-example : spec .quic [⟨.pooled, none, false, healthyDial, false, true⟩, ⟨.fresh, some 1, false, healthyDial, false, false⟩]
+example : spec .quic [⟨.pooled, none, false, healthyDial, false, true, false⟩, ⟨.fresh, some 1, false, healthyDial, false, false, false⟩]
     ⟨true, none, some 1, "prompt", true, 0⟩ = true := by decide
-example : spec .quic [⟨.fresh, none, false, none, false, false⟩] ⟨false, some 1, some 1, "prompt", true, 0⟩ = true := by decide
-example : spec .pipeline [⟨.pooled, none, false, none, false, false⟩] ⟨false, some 8, some 0, "prompt", true, 0⟩ = false := by decide
-example : spec .pipeline [⟨.fresh, none, false, none, false, false⟩] ⟨false, some 1, some 1, "intime", true, 0⟩ = false := by decide
-example : spec .pipeline [⟨.fresh, none, false, none, false, false⟩] ⟨false, some 1, some 1, "prompt", false, 0⟩ = false := by decide
-example : spec .pipeline [⟨.fresh, none, false, none, false, false⟩] ⟨false, some 1, some 1, "prompt", true, 1⟩ = false := by decide
+example : spec .quic [⟨.fresh, none, false, none, false, false, false⟩] ⟨false, some 1, some 1, "prompt", true, 0⟩ = true := by decide
+example : spec .pipeline [⟨.pooled, none, false, none, false, false, false⟩] ⟨false, some 8, some 0, "prompt", true, 0⟩ = false := by decide
+/-- DoH: a reused connection that died (h2) / a QUIC connection error (h3) with a healthy server must be
+    survived; a bad response need not -/
+example : spec .doh [⟨.pooled, none, false, healthyDial, false, false, false⟩, ⟨.fresh, some 1, false, healthyDial, false, false, false⟩]
+    ⟨false, none, none, "prompt", true, 0⟩ = false := by decide
+example : spec .doh [⟨.pooled, none, false, healthyDial, false, true, false⟩, ⟨.fresh, some 1, false, healthyDial, false, false, false⟩]
+    ⟨false, none, none, "prompt", true, 0⟩ = false := by decide
+example : spec .doh [⟨.pooled, none, false, healthyDial, false, false, true⟩, ⟨.fresh, some 1, false, healthyDial, false, false, false⟩]
+    ⟨false, none, none, "prompt", true, 0⟩ = true := by decide
+example : spec .pipeline [⟨.fresh, none, false, none, false, false, false⟩] ⟨false, some 1, some 1, "intime", true, 0⟩ = false := by decide
+example : spec .pipeline [⟨.fresh, none, false, none, false, false, false⟩] ⟨false, some 1, some 1, "prompt", false, 0⟩ = false := by decide
+example : spec .pipeline [⟨.fresh, none, false, none, false, false, false⟩] ⟨false, some 1, some 1, "prompt", true, 1⟩ = false := by decide
 
 /-! ### tie: pinned source facts -/
 
